@@ -53,17 +53,30 @@ def sh(cmd, cwd=None, timeout=1800, env=None, input=None):
 
 
 class Lock:
+    """Inter-process lock (flock), re-entrant within one process."""
+    _held: dict = {}
+
     def __init__(self, name):
+        self.name = name
         self.path = os.path.join(VERIF, f".lock-{name}")
 
     def __enter__(self):
-        self.f = open(self.path, "w")
-        fcntl.flock(self.f, fcntl.LOCK_EX)
+        ent = Lock._held.get(self.name)
+        if ent:
+            ent[1] += 1
+            return self
+        f = open(self.path, "w")
+        fcntl.flock(f, fcntl.LOCK_EX)
+        Lock._held[self.name] = [f, 1]
         return self
 
     def __exit__(self, *a):
-        fcntl.flock(self.f, fcntl.LOCK_UN)
-        self.f.close()
+        ent = Lock._held[self.name]
+        ent[1] -= 1
+        if ent[1] == 0:
+            fcntl.flock(ent[0], fcntl.LOCK_UN)
+            ent[0].close()
+            del Lock._held[self.name]
 
 
 # ----------------------------------------------------------------------------
@@ -448,8 +461,11 @@ def main(argv=None):
         print(json.dumps(res, indent=1, default=str))
         return 0
 
-    # 1. translator
+    # 1. translator  (the Coq lock is held from regeneration to the end of the Coq step so that a
+    #    concurrent check working against another VERIF_REPO cannot swap Generated/*.v in between)
     from translator import gen
+    coq_lock = Lock("coq")
+    coq_lock.__enter__()
     needed = list(getattr(module, "GENERATED", []))
     # only this property's generated files are rewritten (other checks may be running concurrently
     # against another VERIF_REPO); files that do not exist yet are generated too
@@ -517,6 +533,12 @@ def main(argv=None):
             ctx.trusted.append("coqchk -o axioms of all loaded libraries: " + (" ".join(m.group(1).split()) if m else "<none listed>"))
 
     # 3. correspondence + search (property module)
+    try:
+        if hasattr(module, "build_model"):
+            module.build_model()      # model runner built from the same Generated files, under the lock
+    except Exception as e:  # noqa
+        ctx.notes.append(f"build_model raised {e!r}")
+    coq_lock.__exit__(None, None, None)
     try:
         module.run(ctx)
     except Exception as e:  # noqa
